@@ -428,7 +428,9 @@ p = prop("C07", engine="kani",
          assumptions=COMMON_K_ASSUME + ["f64::ln / f64::log2 are stubbed by sound over-approximations: log2 exact on powers of two and strictly between neighbouring integers otherwise; 1-1/x <= ln x <= x-1, ln 2 exact",
                                         "decided: usability (k>=1, m>=1, no panic on insert/query), cuckoo l in [2,64] with 2*bucketsize/2^l <= p < 2*bucketsize/2^(l-1), power-of-two n_buckets with capacity*load >= n, fingerprint in [1,2^l-1], bucket < n_buckets, quotient/remainder = split of the low q+r bits"])
 p["units"] += [
-    K("h_sizing::sizing_bloom_usable", "quick", "Bloom from (n,p): k>=1, m>=1, insert/query do not panic", "n<=16, p>=2^-8", mem_class_gb=8, timeout_s=2400),
+    K("h_sizing::sizing_bloom_usable", "quick", "Bloom from (n,p): k>=1, m>=1; k within one of log2(1/p)", "n<=16, p>=2^-8", mem_class_gb=8, timeout_s=2400),
+    K("h_sizing::sizing_bloom_rate", "quick", "Bloom from (n,p): m not below n ln(1/p)/ln(2)^2 (up to the ln band and truncation)", "n<=16, p = a/256", mem_class_gb=8, timeout_s=2400),
+    K("h_sizing::sizing_bloom_len_estimate", "quick", "Bloom len() = -(m/k) ln(1 - X/m) within the ln band, for every bit pattern", "m=64, k in 1..=3, all 2^64-1 patterns", mem_class_gb=8, timeout_s=2400),
     K("h_sizing::sizing_cuckoo4_usable", "quick", "cuckoo_4 from (p,n): 2<=l<=64 matching the rate, power-of-two buckets, capacity for n at load 0.95", "n<=1024, p>=2^-40", mem_class_gb=8, timeout_s=2400),
     K("h_sizing::sizing_cuckoo8_usable", "quick", "cuckoo_8 from (p,n)", "n<=1024, p>=2^-40", mem_class_gb=8, timeout_s=2400),
     K("h_sizing::sizing_qf_quotient_remainder_kernel", "quick", "QF quotient/remainder = split of the low q+r hash bits", "q<=7, all r", mem_class_gb=6, timeout_s=2400),
